@@ -174,10 +174,95 @@ class _Inline(ast.NodeTransformer):
         return ast.copy_location(Sub().visit(copy.deepcopy(ret)), node)
 
 
+def _rebound_value(fi, n, stop, depth):
+    """Value of the Name use `n` whose single reaching definition REBINDS the
+    name from itself (`B = B.reshape(n, k)`: one statement of a chain that was
+    one expression before): the defining expression with the inner uses of
+    the name expanded AT THE DEFINITION (there they denote the previous
+    binding), provided the name disappears from the result, the object is
+    never mutated in place, and every name the result reads has the same
+    reaching definitions, and no in-place mutation, between the rebinding and
+    the use.  (FuncInfo.temp_value refuses such a definition because the
+    operand `B` is rebound between definition and use - by the definition
+    itself.)  Returns the expanded tree or None."""
+    if not (isinstance(n, ast.Name) and isinstance(n.ctx, ast.Load)) or depth <= 0:
+        return None
+    try:
+        defs = fi.defs_of_use(n)
+    except Exception:
+        return None
+    if len(defs) != 1:
+        return None
+    site = next(iter(defs))
+    if site in ('PARAM', 'UNBOUND') or not isinstance(site, (ast.Assign, ast.AnnAssign)):
+        return None
+    v = fi.def_value(site, n.id)
+    use = fi.stmt(n)
+    if v is None or use is None or use is site or isinstance(v, ast.GeneratorExp) or not is_pure(v) or n.id not in names_loaded(v):
+        return None
+    if fi._mutated_in_place(n.id):
+        return None
+    X = expand_rebound(fi, v, stop=stop, depth=depth - 1)
+    read = names_loaded(X)
+    if n.id in read:
+        return None
+    for m in read:
+        if fi.rd.defs_at(site, m) != fi.rd.defs_at(use, m):
+            return None
+        for ms in fi._mutated_in_place(m):
+            if ms is use or ms is site:
+                continue
+            if fi.cfg.reachable(site, ms) and fi.cfg.reachable(ms, use, avoiding=[site]):
+                return None
+    return X
+
+
+def expand_rebound(fi, expr, stop=(), depth=8):
+    """FuncInfo.expand that also reads through self-rebinding chains
+    (`x = f(...); x = x.g(...); y = x.h()` denotes `f(...).g(...).h()`)."""
+    stop = tuple(stop)
+
+    def ex(e, d):
+        if isinstance(e, ast.Name):
+            if d > 0 and e.id not in stop and isinstance(e.ctx, ast.Load):
+                v = fi.temp_value(e, True, stop)
+                if v is not None:
+                    return ex(v, d - 1)
+                r = _rebound_value(fi, e, stop, d)
+                if r is not None:
+                    return r
+            return ast.copy_location(ast.Name(id=e.id, ctx=e.ctx), e)
+        if not isinstance(e, ast.AST):
+            return e
+        if isinstance(e, (ast.expr_context, ast.operator, ast.unaryop, ast.boolop, ast.cmpop)):
+            return e
+        if isinstance(e, ast.Call) and getattr(e, '_from_np_array', False) and isinstance(e.func, ast.Attribute) \
+                and isinstance(e.func.value, ast.Name):
+            inner = ex(e.func.value, d)
+            if not isinstance(inner, ast.Name):
+                return ast.copy_location(ast.Call(
+                    func=ast.Attribute(value=ast.Name(id='np', ctx=ast.Load()), attr='array', ctx=ast.Load()),
+                    args=[inner], keywords=[]), e)
+        new = type(e)()
+        for f in e._fields:
+            val = getattr(e, f, None)
+            if isinstance(val, list):
+                setattr(new, f, [ex(x, d) for x in val])
+            elif isinstance(val, ast.AST):
+                setattr(new, f, ex(val, d))
+            else:
+                setattr(new, f, val)
+        for a in ('lineno', 'col_offset', 'end_lineno', 'end_col_offset', '_from_np_array', '_canon_origin'):
+            if hasattr(e, a):
+                setattr(new, a, getattr(e, a))
+        return new
+    return ex(expr, depth)
+
+
 def xp(fi, mod, e, stop=()):
-    """Canonical tree of `e` with temporaries expanded and one-expression
-    module helpers inlined."""
-    t = _Inline(mod).visit(fi.expand(e, stop=tuple(stop)))
+    """Canonical tree of `e` with temporaries (also self-rebinding chains)
+    expanded and one-expression module helpers inlined."""
+    t = _Inline(mod).visit(expand_rebound(fi, e, stop=tuple(stop)))
     ast.fix_missing_locations(t)
     return canon(t)
 
@@ -1301,7 +1386,9 @@ def d3_committors(ck, mod):
                 _pins(ck, rule + '.rhs', mod, fn, fi, F, R, {sinks: 1, sources: 0}, stop, ss,
                       'R[sinks] = 1 and R[sources] = 0 (boundary rows)',
                       'the right-hand side must be pinned before the solve: R[sinks] = 1.0 and R[sources] = 0.0', after=Rdef[0],
-                      names=Rnames)
+                      names=Rnames, legit=(0.0, 1.0), mask_rule=rule + '.value-mask',
+                      mask_txt='The right-hand side holds the transition probabilities into the sinks: changing one of them changes '
+                      'the linear system, the committors no longer satisfy the first-step equation of the given matrix.')
         ck.ok(rule + '.solve', mod, solve, u(solve), 'solves (I - Q) B = R')
     # sum over sinks and final pin: the returned object
     r = returns_of(fn)
@@ -1333,7 +1420,8 @@ def d3_committors(ck, mod):
             ck.missing(rule + '.sum', 'single definition of the returned array %s' % Cn)
             return
         _pins(ck, rule + '.final-pin', mod, fn, fi, F, Cn, {sinks: 1}, stop, r[0], pin_ok, pin_bad,
-              construct_missing='committors[sinks] = 1.0', also={sources: 0}, after=loop, names={Cn})
+              construct_missing='committors[sinks] = 1.0', also={sources: 0}, after=loop, names={Cn},
+              legit=(0.0, 1.0), mask_rule=rule + '.value-mask', mask_txt=MASK_TXT)
         _result_container(ck, rule + '.container', mod, fi, F, solve, ss, wrappers, tprob, None)
         return
     cv = fi.def_value(cm[0], C0)
@@ -1356,7 +1444,8 @@ def d3_committors(ck, mod):
               'committors must be B.reshape(n_states, n_sinks).sum(axis=1): the solver returns one column per sink '
               '(row-major (n_states, n_sinks)); another shape/axis mixes states and sinks')
     _pins(ck, rule + '.final-pin', mod, fn, fi, F, Cn, {sinks: 1}, stop, r[0], pin_ok, pin_bad,
-          construct_missing='committors[sinks] = 1.0', also={sources: 0}, after=cm[0], names=Cnames)
+          construct_missing='committors[sinks] = 1.0', also={sources: 0}, after=cm[0], names=Cnames,
+          legit=(0.0, 1.0), mask_rule=rule + '.value-mask', mask_txt=MASK_TXT)
     _result_container(ck, rule + '.container', mod, fi, F, solve, ss, wrappers, tprob, v[0] == 'match')
 
 
@@ -1393,6 +1482,11 @@ def _result_container(ck, rule, mod, fi, F, solve, ss, wrappers, tprob, direct):
     else:
         ck.missing(rule, 'the matrix operand of the solve has matrix semantics (%s): whether the returned committors are converted back '
                    'to a 1-D ndarray is not decided' % u(mat[0])[:80])
+
+
+MASK_TXT = ('Outside sources and sinks a committor is the solution of the first-step equation (transition-weighted average of the '
+            'neighbours): only source/sink rows may be overwritten after the solve; rare-event chains have transient committors '
+            'arbitrarily close to 0 and 1.')
 
 
 RESHAPE2 = ['_S.reshape(_N, _K)', '_S.reshape((_N, _K))', 'np.reshape(_S, (_N, _K))']
@@ -1535,8 +1629,265 @@ def _column_fold(ck, rule, mod, fn, fi, F, Cn, solve, sinks, stop, forms, scope,
     return L
 
 
+class _Opaque(Exception):
+    pass
+
+
+_ABS_FUNCS = ('abs', 'np.abs', 'np.absolute', 'np.fabs', 'numpy.abs', 'numpy.absolute', 'math.fabs')
+_ISCLOSE_FUNCS = ('np.isclose', 'numpy.isclose', 'math.isclose')
+_CMP = {ast.Lt: lambda a, b: a < b, ast.LtE: lambda a, b: a <= b, ast.Gt: lambda a, b: a > b, ast.GtE: lambda a, b: a >= b,
+        ast.Eq: lambda a, b: a == b, ast.NotEq: lambda a, b: a != b}
+
+
+def _elem_eval(e, names, v):
+    """Abstract semantics of an elementwise expression over ONE element `v` of
+    the array known under `names` (+ - * /, abs, comparisons, & | ~,
+    np.logical_*, np.isclose with constant tolerances), implemented here:
+    nothing of the analysed code is executed.  Numbers are floats, masks are
+    bools; anything else raises _Opaque."""
+    def num(x):
+        r = _elem_eval(x, names, v)
+        if isinstance(r, bool):
+            raise _Opaque()
+        return r
+
+    def boolean(x):
+        r = _elem_eval(x, names, v)
+        if not isinstance(r, bool):
+            raise _Opaque()
+        return r
+    if isinstance(e, ast.Constant):
+        if isinstance(e.value, bool):
+            return e.value
+        if isinstance(e.value, (int, float)):
+            return float(e.value)
+        raise _Opaque()
+    if isinstance(e, ast.Name):
+        if e.id in names:
+            return v
+        raise _Opaque()
+    if isinstance(e, ast.UnaryOp):
+        if isinstance(e.op, ast.USub):
+            return -num(e.operand)
+        if isinstance(e.op, ast.UAdd):
+            return num(e.operand)
+        if isinstance(e.op, (ast.Invert, ast.Not)):
+            return not boolean(e.operand)
+        raise _Opaque()
+    if isinstance(e, ast.BinOp):
+        if isinstance(e.op, (ast.BitAnd, ast.BitOr)):
+            a, b = boolean(e.left), boolean(e.right)
+            return (a and b) if isinstance(e.op, ast.BitAnd) else (a or b)
+        a, b = num(e.left), num(e.right)
+        if isinstance(e.op, ast.Add):
+            return a + b
+        if isinstance(e.op, ast.Sub):
+            return a - b
+        if isinstance(e.op, ast.Mult):
+            return a * b
+        if isinstance(e.op, ast.Div) and b != 0:
+            return a / b
+        raise _Opaque()
+    if isinstance(e, ast.Compare):
+        vals = [num(e.left)] + [num(c) for c in e.comparators]
+        res = True
+        for i, op in enumerate(e.ops):
+            f = _CMP.get(type(op))
+            if f is None:
+                raise _Opaque()
+            res = res and f(vals[i], vals[i + 1])
+        return res
+    if isinstance(e, ast.Call):
+        cn = call_name(e) or ''
+        if any(isinstance(a, ast.Starred) for a in e.args) or any(k.arg is None for k in e.keywords):
+            raise _Opaque()
+        if cn in _ABS_FUNCS and len(e.args) == 1 and not e.keywords:
+            return abs(num(e.args[0]))
+        if cn in ('np.logical_and', 'np.logical_or') and len(e.args) == 2 and not e.keywords:
+            a, b = boolean(e.args[0]), boolean(e.args[1])
+            return (a and b) if cn.endswith('and') else (a or b)
+        if cn == 'np.logical_not' and len(e.args) == 1 and not e.keywords:
+            return not boolean(e.args[0])
+        if cn in _ISCLOSE_FUNCS and 2 <= len(e.args) <= 4:
+            kw = {k.arg: k.value for k in e.keywords}
+            if cn.startswith('math.'):
+                if len(e.args) != 2 or set(kw) - {'rel_tol', 'abs_tol'}:
+                    raise _Opaque()
+                a, b = num(e.args[0]), num(e.args[1])
+                rt = num(kw['rel_tol']) if 'rel_tol' in kw else 1e-09
+                at = num(kw['abs_tol']) if 'abs_tol' in kw else 0.0
+                return abs(a - b) <= max(rt * max(abs(a), abs(b)), at)
+            if set(kw) - {'rtol', 'atol', 'equal_nan'}:
+                raise _Opaque()
+            a, b = num(e.args[0]), num(e.args[1])
+            pos = list(e.args[2:])
+            if (pos and 'rtol' in kw) or (len(pos) > 1 and 'atol' in kw):
+                raise _Opaque()
+            rt = num(pos[0]) if pos else (num(kw['rtol']) if 'rtol' in kw else 1e-05)
+            at = num(pos[1]) if len(pos) > 1 else (num(kw['atol']) if 'atol' in kw else 1e-08)
+            return abs(a - b) <= at + rt * abs(b)       # numpy's (asymmetric) definition
+        raise _Opaque()
+    raise _Opaque()
+
+
+def _cut_points(e, names):
+    """Exact set of values of the element at which the mask `e` can change,
+    when every atom is `v op c`, `abs(v - c) op t`, `abs(v) op t` or
+    np.isclose(v, c, <constant tolerances>) (v the element, c and t
+    constants) combined with & | ~ / np.logical_*: the mask is constant
+    between two neighbouring cut points.  None when some atom has another
+    shape (then only witnesses can be searched, no completeness claim)."""
+    def const(x):
+        try:
+            r = _elem_eval(x, (), 0.0)
+        except _Opaque:
+            return None
+        return None if isinstance(r, bool) else r
+
+    def is_v(x):
+        return isinstance(x, ast.Name) and x.id in names
+
+    def centre(x):
+        """x = v, v - c, c - v, v + c: the value of v where x is 0."""
+        if is_v(x):
+            return 0.0
+        if isinstance(x, ast.BinOp) and isinstance(x.op, (ast.Sub, ast.Add)):
+            sgn = -1.0 if isinstance(x.op, ast.Add) else 1.0
+            if is_v(x.left) and const(x.right) is not None:
+                return sgn * const(x.right)
+            if is_v(x.right) and const(x.left) is not None:
+                return const(x.left) if isinstance(x.op, ast.Sub) else -const(x.left)
+        return None
+    if isinstance(e, ast.BinOp) and isinstance(e.op, (ast.BitAnd, ast.BitOr)):
+        a, b = _cut_points(e.left, names), _cut_points(e.right, names)
+        return None if a is None or b is None else a | b
+    if isinstance(e, ast.UnaryOp) and isinstance(e.op, (ast.Invert, ast.Not)):
+        return _cut_points(e.operand, names)
+    if isinstance(e, ast.Call):
+        cn = call_name(e) or ''
+        if cn in ('np.logical_and', 'np.logical_or', 'np.logical_not') and not e.keywords and e.args:
+            out = set()
+            for a in e.args:
+                r = _cut_points(a, names)
+                if r is None:
+                    return None
+                out |= r
+            return out
+        if cn in ('np.isclose', 'numpy.isclose') and len(e.args) >= 2 and is_v(e.args[0]) and const(e.args[1]) is not None:
+            c = const(e.args[1])
+            # tolerance = value of |a - b| <= tol at the (constant) second operand: read off the semantics above
+            kw = {k.arg: k.value for k in e.keywords}
+            pos = list(e.args[2:])
+            rt = const(pos[0]) if pos else (const(kw['rtol']) if 'rtol' in kw else 1e-05)
+            at = const(pos[1]) if len(pos) > 1 else (const(kw['atol']) if 'atol' in kw else 1e-08)
+            if rt is None or at is None or set(kw) - {'rtol', 'atol', 'equal_nan'}:
+                return None
+            t = at + rt * abs(c)
+            return {c - t, c + t}
+        return None
+    if isinstance(e, ast.Compare) and len(e.ops) == 1:
+        l, r = e.left, e.comparators[0]
+        if const(l) is not None and const(r) is None:
+            l, r = r, l
+        c = const(r)
+        if c is None:
+            return None
+        if is_v(l):
+            return {c}
+        if isinstance(l, ast.Call) and (call_name(l) or '') in _ABS_FUNCS and len(l.args) == 1 and not l.keywords:
+            z = centre(l.args[0])
+            if z is not None:
+                return {z - c, z + c}
+        z = centre(l)
+        if z is not None:
+            return {z + c, z - c}
+        return None
+    if isinstance(e, ast.Constant) and isinstance(e.value, bool):
+        return set()
+    return None
+
+
+def value_mask_store(fi, stmt, target, names, legit, stop):
+    """`A[<mask>] = k` where the mask is an elementwise condition on the VALUES
+    of A itself (A known under `names`) and k a constant: the store selects
+    states by what the solver returned for them, not by membership in a state
+    set.  With `legit` = (lo, hi), the closed range the exact values lie in
+    (every value strictly inside is attained by some admissible input):
+
+    * ('bad', v, k)  a value v with lo < v < hi, v != k satisfies the mask: a
+      state whose exact value is v is overwritten with k, i.e. the returned
+      value no longer satisfies the equation that defines it there;
+    * ('ok', None, k)  the mask is false for every value in [lo, hi] other
+      than k and stores the nearest bound outside the range (a clamp of
+      round-off / a store that changes nothing) - decided on the exact
+      partition of the real line by the cut points of the mask;
+    * None  not such a store / cannot be decided (caller: incomplete).
+
+    The mask is evaluated with the abstract semantics _elem_eval on the finite
+    partition of the line induced by its constants."""
+    if not isinstance(stmt, ast.Assign) or len(stmt.targets) != 1:
+        return None
+    k = _num_const(fi, stmt.value)
+    if k is None:
+        return None
+    names = set(names)
+    idx = canon(fi.expand(target.slice, stop=tuple(stop) + tuple(names)))
+    if isinstance(idx, ast.Tuple):
+        return None
+    if not (names_loaded(idx) & names):
+        return None
+    lo, hi = legit
+    try:
+        if not isinstance(_elem_eval(idx, names, lo), bool):
+            return None
+    except _Opaque:
+        return None
+    k = float(k)
+
+    def holds(v):
+        try:
+            return _elem_eval(idx, names, v)
+        except (_Opaque, OverflowError, ZeroDivisionError):
+            return None
+    cuts = _cut_points(idx, names)
+    consts = set()
+    for n in ast.walk(idx):
+        if isinstance(n, ast.Constant) and isinstance(n.value, (int, float)) and not isinstance(n.value, bool):
+            consts.add(abs(float(n.value)))
+    if any(isinstance(n, ast.Call) and (call_name(n) or '') in _ISCLOSE_FUNCS for n in ast.walk(idx)):
+        consts |= {1e-05, 1e-08, 1e-09}
+    base = set(consts) | {lo, hi, k} | set(cuts or ())
+    pts = set(base)
+    for c in base:
+        for t in consts:
+            pts |= {c - t, c + t, c - t - t * abs(c), c + t + t * abs(c)}
+    pts |= set(cuts or ())
+    order = sorted(p for p in pts if p == p and abs(p) != float('inf'))
+    samples = list(order)
+    for a, b in zip(order, order[1:]):
+        samples.append(a + (b - a) / 2.0)
+    samples += [order[0] - 1.0, order[-1] + 1.0]
+    wit = [v for v in samples if lo < v < hi and v != k and holds(v) is True]
+    if wit:
+        return ('bad', max(wit, key=lambda v: abs(v - k)), k)
+    if cuts is None:
+        return None
+    # complete enumeration: cut points (with the range bounds and k) and one point of every open interval between them
+    for v in samples:
+        h = holds(v)
+        if h is None:
+            return None
+        if not h or v == k:
+            continue
+        if lo <= v <= hi:
+            return None             # selects a bound value other than k: left to the pin rules
+        if (v < lo and k != lo) or (v > hi and k != hi):
+            return None
+    return ('ok', None, k)
+
+
 def _pins(ck, rule, mod, fn, fi, function, arr, want, stop, before, ok_txt, bad_txt, construct_missing=None, also=None, after=None,
-          names=None):
+          names=None, legit=None, mask_rule=None, mask_txt=''):
     """Constant stores `arr[<index set>] = <value>`: for every index set in
     `want` a store of the wanted value lies on every path from the definition
     `after` of the array to its consumer `before` (without `after`: dominates
@@ -1549,11 +1900,14 @@ def _pins(ck, rule, mod, fn, fi, function, arr, want, stop, before, ok_txt, bad_
     got = {k: [] for k in want}
     allowed = dict(also or {})
     allowed.update(want)
-    unknown, wrong = [], []
+    unknown, wrong, masked = [], [], []
     for s, t in stores_into(fn, names):
         k = _index_role(fi, t.slice, allowed, stop) if isinstance(s, ast.Assign) else None
         val = _num_const(fi, s.value) if k is not None else None
-        if k is None or val is None:
+        vm = value_mask_store(fi, s, t, names, legit, stop) if (k is None and legit is not None) else None
+        if vm is not None:
+            masked.append((s, vm))
+        elif k is None or val is None:
             unknown.append(s)
         elif val != allowed[k]:
             wrong.append(s)
@@ -1565,6 +1919,16 @@ def _pins(ck, rule, mod, fn, fi, function, arr, want, stop, before, ok_txt, bad_
         recv = isinstance(c.func, ast.Attribute) and isinstance(c.func.value, ast.Name) and c.func.value.id in names
         if (takes or recv) and not is_pure(ast.Call(func=c.func, args=[], keywords=[])):
             unknown.append(c)
+    for s, (verdict, v, kk) in masked:
+        mr = mask_rule or rule
+        if verdict == 'ok':
+            ck.ok(mr, mod, s, u(s), 'value-selected store into %s changes no value inside [%g, %g] (clamp of round-off to the nearest bound)'
+                  % (arr, legit[0], legit[1]))
+        else:
+            ck.bad(mr, mod, s, function, 'store of a constant into %s under a mask on its own values' % arr,
+                   '`%s` selects the elements by their VALUE: an element holding %r (a value strictly inside [%g, %g], which the exact '
+                   'solution takes at a state outside the pinned sets for some admissible input) satisfies the mask and is overwritten '
+                   'with %g. %s' % (u(s)[:120], v, legit[0], legit[1], kk, mask_txt))
     for s in wrong:
         ck.bad(rule, mod, s, function, u(s), bad_txt)
     for s in unknown:
@@ -1673,6 +2037,16 @@ def d_mfpts(ck, mod):
         if isinstance(ret.value, ast.Name):
             nm = ret.value.id
             if fi._mutated_in_place(nm):
+                # a constant stored under a mask on the table's own values: every positive time is attained
+                # (the table scales with the lag time), so a value-selected overwrite is decided here
+                for s_, t_ in stores_into(fn, {nm}):
+                    vm = value_mask_store(fi, s_, t_, {nm}, (0.0, float('inf')), (tprob, sinks, pops, lag))
+                    if vm is not None and vm[0] == 'bad':
+                        ck.bad('C07.D4.value-mask', mod, s_, F, 'store of a constant into %s under a mask on its own values' % nm,
+                               '`%s` selects entries of the returned MFPTs by their VALUE: an entry holding %r is overwritten with %g. '
+                               'Away from the sinks an MFPT is one lag time plus the transition-weighted average of the neighbours\' '
+                               'times and scales linearly with the lag time: every positive value occurs for some lag time, so the '
+                               'overwrite breaks the first-step equation / the linear scaling.' % (u(s_)[:120], vm[1], vm[2]))
                 unresolved.append('%s is modified in place' % nm)
                 continue
             for site in fi.defs_of_use(ret.value):
